@@ -602,7 +602,10 @@ func compareAndWriteFile(filePath string, b []byte) (bool, error) {
 			return false, err
 		}
 
-		if err := os.WriteFile(filePath, b, 0775); err != nil {
+		// Write to a temporary file and rename it into place, so that a crash
+		// never leaves an empty or partial file under the final name. The
+		// temporary name matches no metadata suffix, so a leftover is ignored.
+		if err := writeFileAtomic(filePath, b, 0775); err != nil {
 			return false, err
 		}
 		return true, nil
@@ -633,4 +636,32 @@ func compareAndWriteFile(filePath string, b []byte) (bool, error) {
 		return false, err
 	}
 	return true, nil
+}
+
+// writeFileAtomic creates filePath with content b such that the file is either
+// absent or complete.
+func writeFileAtomic(filePath string, b []byte, perm os.FileMode) error {
+	tmp, err := os.CreateTemp(filepath.Dir(filePath), ".tmp-")
+	if err != nil {
+		return err
+	}
+	tmpPath := tmp.Name()
+	if _, err := tmp.Write(b); err != nil {
+		tmp.Close()
+		os.Remove(tmpPath)
+		return err
+	}
+	if err := tmp.Close(); err != nil {
+		os.Remove(tmpPath)
+		return err
+	}
+	if err := os.Chmod(tmpPath, perm); err != nil {
+		os.Remove(tmpPath)
+		return err
+	}
+	if err := os.Rename(tmpPath, filePath); err != nil {
+		os.Remove(tmpPath)
+		return err
+	}
+	return nil
 }
